@@ -418,6 +418,10 @@ class Sym:
                         bb = tgt
                         continue
                     edges = [(int(val), b2) for val, b2 in t["targets"]] + [(None, t["otherwise"])]
+                    # the same value was tested before on this path (`let big = v > T; if big {..} .. if big {..}`): take the same edge
+                    prev = [v_ for d_, v_ in st.conds if d_ == d]
+                    if prev and d[0] != "optest" and not _has_havoc(d):
+                        edges = [(val, b2) for val, b2 in edges if val == prev[-1]] or edges
                     for val, b2 in edges:
                         npaths[0] += 1
                         if npaths[0] > self.max_paths:
@@ -440,10 +444,20 @@ class Sym:
         return out
 
 
+def _has_havoc(v):
+    if not isinstance(v, tuple):
+        return False
+    if v and v[0] == "havoc":
+        return True
+    return any(_has_havoc(x) for x in v if isinstance(x, tuple))
+
+
 def fold_bin(op, a, b):
     if a[0] == "const" and b[0] == "const" and isinstance(a[2], int) and isinstance(b[2], int):
         base = op.replace("WithOverflow", "").replace("Unchecked", "")
         try:
+            if base in ("Eq", "Ne", "Lt", "Le", "Gt", "Ge") and not isinstance(a[2], bool) and not isinstance(b[2], bool):
+                return ("const", "bool", int({"Eq": a[2] == b[2], "Ne": a[2] != b[2], "Lt": a[2] < b[2], "Le": a[2] <= b[2], "Gt": a[2] > b[2], "Ge": a[2] >= b[2]}[base]))
             v = {"BitOr": a[2] | b[2], "BitAnd": a[2] & b[2], "BitXor": a[2] ^ b[2], "Add": a[2] + b[2]}[base]
             return ("const", a[1], v)
         except KeyError:
